@@ -237,16 +237,16 @@ Qed.
 Lemma res_u32 r : res_ok r -> DnsCache.result_u32 (abs_result r).
 Proof. destruct r as [m|e]; simpl; [intros [H _]; apply (abs_result_u32 m H) | auto]. Qed.
 
-Lemma cache_stage_ok st q tcp t_ns srv id u :
+Lemma cache_stage_ok st q tcp t_ns t_ins srv id u :
   DnsCache.cache_ok (s_cache st) -> store_ok (s_cache st) (s_store st) ->
   wf_pkt q = true -> id < 65536 -> up_ok u ->
-  exists r c' store' qs, cache_stage st q tcp t_ns srv id u = Ok (r, c', store', qs) /\
+  exists r c' store' qs, cache_stage st q tcp t_ns t_ins srv id u = Ok (r, c', store', qs) /\
     DnsCache.cache_ok c' /\ store_ok c' store' /\ res_ok r.
 Proof.
   intros CO SO Hq Hid Hu. unfold cache_stage.
   pose proof (out_query_ok tcp id u Hu) as RO. set (o := out_query tcp id u) in *.
   destruct (encode_outquery_total id q Hq Hid) as (qb & EQ).
-  pose proof (Proofs.DnsCache.handle_cache_ok (s_cache st) (key_of q) (qclass q) t_ns t_ns
+  pose proof (Proofs.DnsCache.handle_cache_ok (s_cache st) (key_of q) (qclass q) t_ns t_ins
                 (abs_result (fst o)) CO (res_u32 _ RO)) as CO'.
   unfold DnsCache.handle in *.
   destruct (N.eqb_spec (qclass q) 1) as [QC|QC]; cbn [negb] in *.
@@ -345,12 +345,12 @@ Proof.
   eapply Forall_le_mono; eassumption.
 Qed.
 
-Lemma dns_step_total mac c st t_ns t_s client port local tcp b u id eo :
+Lemma dns_step_total mac c st t_ns t_ins t_s client port local tcp b u id eo :
   cfg_ok c -> st_ok t_s st ->
   Bucket.window Bucket.CAP Bucket.RATE <= t_s -> t_s < pow2 32 -> is_ip client -> is_ip local ->
   bytes_ok b = true -> up_ok u -> id < 65536 -> wf_opts eo = true ->
   exists st' out qs,
-    dns_step mac c st t_ns t_s client port local tcp b u id eo = Ok (st', out, qs) /\ st_ok t_s st'.
+    dns_step mac c st t_ns t_ins t_s client port local tcp b u id eo = Ok (st', out, qs) /\ st_ok t_s st'.
 Proof.
   intros HC (CO & SO & BL & BF) HW HT IC IL HB HU HID HEO. unfold dns_step.
   destruct (decode b) as [q|e|p] eqn:D.
@@ -360,13 +360,13 @@ Proof.
       match rt with
       | Refuse kind => Ok (in_error q kind eo, s_cache st, s_store st, [])
       | ToServer srv =>
-        do x <- cache_stage st q tcp t_ns srv id u;
+        do x <- cache_stage st q tcp t_ns t_ins srv id u;
         match x with (r, c', store', qs) => Ok (reply_of q r eo, c', store', qs) end
       end = Ok (reply, c', store', qs) /\
       DnsCache.cache_ok c' /\ store_ok c' store' /\
       (exists e, wire_bytes q tcp reply = Ok e)).
     { destruct rt as [srv|kind].
-      - destruct (cache_stage_ok st q tcp t_ns srv id u CO SO WQ HID HU) as (r & c' & s' & qs & -> & A & B & R).
+      - destruct (cache_stage_ok st q tcp t_ns t_ins srv id u CO SO WQ HID HU) as (r & c' & s' & qs & -> & A & B & R).
         cbn [obind]. eexists _, _, _, _. split; [reflexivity|]. split; [assumption|]. split; [assumption|].
         unfold wire_bytes, prepare_to_send, encode_sized. destruct r as [m|er]; cbn [reply_of].
         + destruct R as [WM LM]. rewrite in_reply_encoding.
@@ -389,21 +389,21 @@ Proof.
 Qed.
 
 (* ---- reading a successful step back stage by stage ----------------------------------------------- *)
-Definition staged_of (st : pstate) (q : pkt) (tcp : bool) (t_ns id : N) (u : upstream) (eo : opts) (rt : routed)
+Definition staged_of (st : pstate) (q : pkt) (tcp : bool) (t_ns t_ins id : N) (u : upstream) (eo : opts) (rt : routed)
   : outcome (pkt * DnsCache.cache * list (DnsCache.key * pkt) * list upq) :=
   match rt with
   | Refuse kind => Ok (in_error q kind eo, s_cache st, s_store st, [])
   | ToServer srv =>
-    do x <- cache_stage st q tcp t_ns srv id u;
+    do x <- cache_stage st q tcp t_ns t_ins srv id u;
     match x with (r, c', store', qs) => Ok (reply_of q r eo, c', store', qs) end
   end.
 
-Lemma dns_step_inv mac c st t_ns t_s client port local tcp b u id eo q st' out qs :
+Lemma dns_step_inv mac c st t_ns t_ins t_s client port local tcp b u id eo q st' out qs :
   decode b = Ok q ->
-  dns_step mac c st t_ns t_s client port local tcp b u id eo = Ok (st', out, qs) ->
+  dns_step mac c st t_ns t_ins t_s client port local tcp b u id eo = Ok (st', out, qs) ->
   exists rt reply c' store' bytes drop bs,
     front c client port q = Ok rt /\
-    staged_of st q tcp t_ns id u eo rt = Ok (reply, c', store', qs) /\
+    staged_of st q tcp t_ns t_ins id u eo rt = Ok (reply, c', store', qs) /\
     wire_bytes q tcp reply = Ok bytes /\
     limiter_stage mac c st client local tcp q reply (lenN b) (lenN bytes) t_s = Ok (drop, bs) /\
     st' = {| s_cache := c'; s_store := store'; s_buckets := bs; s_keys := s_keys st |} /\
@@ -411,8 +411,8 @@ Lemma dns_step_inv mac c st t_ns t_s client port local tcp b u id eo q st' out q
 Proof.
   intros D H. unfold dns_step in H. rewrite D in H.
   destruct (front c client port q) as [rt| |] eqn:F; cbn [obind] in H; try discriminate.
-  fold (staged_of st q tcp t_ns id u eo rt) in H.
-  destruct (staged_of st q tcp t_ns id u eo rt) as [[[[reply c'] store'] qs']| |] eqn:S; cbn [obind] in H; try discriminate.
+  fold (staged_of st q tcp t_ns t_ins id u eo rt) in H.
+  destruct (staged_of st q tcp t_ns t_ins id u eo rt) as [[[[reply c'] store'] qs']| |] eqn:S; cbn [obind] in H; try discriminate.
   destruct (wire_bytes q tcp reply) as [bytes| |] eqn:W; cbn [obind] in H; try discriminate.
   destruct (limiter_stage mac c st client local tcp q reply (lenN b) (lenN bytes) t_s) as [[drop bs]| |] eqn:L;
     cbn [obind fst snd] in H; try discriminate.
@@ -421,14 +421,14 @@ Qed.
 
 (* nothing but the limiter's buckets changes, and no upstream query is emitted, when the query is
    refused before the cache *)
-Lemma refused_step mac c st t_ns t_s client port local tcp b u id eo q st' out qs kind :
+Lemma refused_step mac c st t_ns t_ins t_s client port local tcp b u id eo q st' out qs kind :
   decode b = Ok q -> front c client port q = Ok (Refuse kind) ->
-  dns_step mac c st t_ns t_s client port local tcp b u id eo = Ok (st', out, qs) ->
+  dns_step mac c st t_ns t_ins t_s client port local tcp b u id eo = Ok (st', out, qs) ->
   qs = [] /\ s_cache st' = s_cache st /\ s_store st' = s_store st /\
   exists bytes, wire_bytes q tcp (in_error q kind eo) = Ok bytes /\ (out = None \/ out = Some bytes) /\
                 (tcp = true -> out = Some bytes).
 Proof.
-  intros D F H. destruct (dns_step_inv _ _ _ _ _ _ _ _ _ _ _ _ _ _ _ _ _ D H)
+  intros D F H. destruct (dns_step_inv _ _ _ _ _ _ _ _ _ _ _ _ _ _ _ _ _ _ D H)
     as (rt & reply & c' & store' & bytes & drop & bs & F' & S & W & L & -> & ->).
   rewrite F in F'. inversion F'; subst rt. cbn [staged_of] in S. inversion S; subst. cbn [s_cache s_store].
   repeat split; auto. exists bytes. split; [assumption|]. split; [destruct drop; auto|].
@@ -489,9 +489,9 @@ Proof.
   rewrite !in_app_iff. intros [H|[H|H]]; eapply G in H as (p & ? & ?); exists p; rewrite !in_app_iff; eauto.
 Qed.
 
-Lemma cache_stage_cases st q tcp t_ns srv id u r c' store' qs :
+Lemma cache_stage_cases st q tcp t_ns t_ins srv id u r c' store' qs :
   DnsCache.cache_ok (s_cache st) -> store_ok (s_cache st) (s_store st) ->
-  cache_stage st q tcp t_ns srv id u = Ok (r, c', store', qs) ->
+  cache_stage st q tcp t_ns t_ins srv id u = Ok (r, c', store', qs) ->
   (qs = [] /\ c' = s_cache st /\ store' = s_store st /\ is_hit st q t_ns r)
   \/
   (exists qb, encode (outquery id q) = Ok qb /\
@@ -572,11 +572,11 @@ Definition refused_reply_for (q r : pkt) (rc : N) : Prop :=
   qid r = qid q /\ qname r = qname q /\ qtype r = qtype q /\ qclass r = qclass q /\ qr r = true /\
   rcode r = rc /\ answer r = [] /\ nameserver r = [].
 
-Lemma d02_acl mac c st t_ns t_s client port local tcp b u id eo st' out qs :
+Lemma d02_acl mac c st t_ns t_ins t_s client port local tcp b u id eo st' out qs :
   Acl.wf_rules (c_acls c) = true -> Acl.wf_addr client = true ->
   (~ exists r, Acl.first_match (c_acls c) client r /\ Acl.permits r Acl.OpDns = true) ->
   bytes_ok b = true -> wf_opts eo = true ->
-  dns_step mac c st t_ns t_s client port local tcp b u id eo = Ok (st', out, qs) ->
+  dns_step mac c st t_ns t_ins t_s client port local tcp b u id eo = Ok (st', out, qs) ->
   qs = [] /\ s_cache st' = s_cache st /\ s_store st' = s_store st /\
   (out = None /\ (tcp = true -> forall q, decode b <> Ok q) \/
    exists bytes q r, out = Some bytes /\ decode b = Ok q /\ strict_decode bytes = Some r /\ refused_reply_for q r 5).
@@ -585,7 +585,7 @@ Proof.
   destruct (decode b) as [q|e|p] eqn:D.
   - assert (F : front c client port q = Ok (Refuse 0)).
     { unfold front. apply (proj2 (Proofs.Acl.dns_gate_spec _ _ WR WA)) in NG. rewrite NG. reflexivity. }
-    destruct (refused_step _ _ _ _ _ _ _ _ _ _ _ _ _ _ _ _ _ _ D F H) as (-> & EC & ES & bytes & W & O & T).
+    destruct (refused_step _ _ _ _ _ _ _ _ _ _ _ _ _ _ _ _ _ _ _ D F H) as (-> & EC & ES & bytes & W & O & T).
     split; [reflexivity|]. split; [assumption|]. split; [assumption|].
     destruct (error_on_wire q tcp 0 eo bytes (decode_wf b q HB D) WE W) as (_ & r & SD & R).
     destruct O as [->| ->].
@@ -597,11 +597,11 @@ Proof.
 Qed.
 
 (* ---- D03: routing ------------------------------------------------------------------------------------- *)
-Lemma d03_forge mac c st t_ns t_s client port local tcp b u id eo st' out qs q :
+Lemma d03_forge mac c st t_ns t_ins t_s client port local tcp b u id eo st' out qs q :
   decode b = Ok q -> bytes_ok b = true -> wf_opts eo = true ->
   Acl.dns_gate (c_acls c) client = Acl.DnsPassedOn -> qtype q <> 255 -> port <> 53 ->
   DnsRoute.decide (c_routes c) (qname q) (rd q) = DnsRoute.RBlocked ->
-  dns_step mac c st t_ns t_s client port local tcp b u id eo = Ok (st', out, qs) ->
+  dns_step mac c st t_ns t_ins t_s client port local tcp b u id eo = Ok (st', out, qs) ->
   qs = [] /\ s_cache st' = s_cache st /\ s_store st' = s_store st /\ s_buckets st' = s_buckets st /\
   exists bytes r, out = Some bytes /\ strict_decode bytes = Some r /\ refused_reply_for q r 3.
 Proof.
@@ -609,7 +609,7 @@ Proof.
   assert (F : front c client port q = Ok (Refuse 1)).
   { unfold front. rewrite G. destruct (N.eqb_spec (qtype q) 255); [contradiction|].
     destruct (N.eqb_spec port 53); [contradiction|]. rewrite RB. reflexivity. }
-  destruct (dns_step_inv _ _ _ _ _ _ _ _ _ _ _ _ _ _ _ _ _ D H)
+  destruct (dns_step_inv _ _ _ _ _ _ _ _ _ _ _ _ _ _ _ _ _ _ D H)
     as (rt & reply & c' & store' & bytes & drop & bs & F' & S & W & L & -> & ->).
   rewrite F in F'. inversion F'; subst rt. cbn [staged_of] in S. inversion S; subst.
   destruct (limiter_passes _ _ _ _ _ _ _ _ _ _ _ _ _ L) as [-> ->]; [right; cbn; discriminate|].
@@ -618,9 +618,9 @@ Proof.
   exists bytes, r. auto.
 Qed.
 
-Lemma d03_forward mac c st t_ns t_s client port local tcp b u id eo st' out qs q :
+Lemma d03_forward mac c st t_ns t_ins t_s client port local tcp b u id eo st' out qs q :
   st_ok t_s st -> decode b = Ok q ->
-  dns_step mac c st t_ns t_s client port local tcp b u id eo = Ok (st', out, qs) -> qs <> [] ->
+  dns_step mac c st t_ns t_ins t_s client port local tcp b u id eo = Ok (st', out, qs) -> qs <> [] ->
   exists srv qb,
     Acl.dns_gate (c_acls c) client = Acl.DnsPassedOn /\ qtype q <> 255 /\ port <> 53 /\
     DnsRoute.decide (c_routes c) (qname q) (rd q) = DnsRoute.RForward srv /\ rd q = true /\
@@ -630,7 +630,7 @@ Lemma d03_forward mac c st t_ns t_s client port local tcp b u id eo st' out qs q
     (qclass q <> 1 \/ DnsCache.get_entry (s_cache st) (key_of q) t_ns = None).
 Proof.
   intros (CO & SO & _) D H NE.
-  destruct (dns_step_inv _ _ _ _ _ _ _ _ _ _ _ _ _ _ _ _ _ D H)
+  destruct (dns_step_inv _ _ _ _ _ _ _ _ _ _ _ _ _ _ _ _ _ _ D H)
     as (rt & reply & c' & store' & bytes & drop & bs & F & S & W & L & -> & ->).
   destruct rt as [srv|kind]; [|cbn [staged_of] in S; inversion S; subst; contradiction].
   unfold front in F.
@@ -639,9 +639,9 @@ Proof.
   destruct (DnsRoute.decide (c_routes c) (qname q) (rd q)) as [| | |srv'|] eqn:DE; try discriminate.
   inversion F; subst srv'.
   cbn [staged_of] in S.
-  destruct (cache_stage st q tcp t_ns srv id u) as [[[[r cc] ss] qq]| |] eqn:CS; cbn [obind] in S; try discriminate.
+  destruct (cache_stage st q tcp t_ns t_ins srv id u) as [[[[r cc] ss] qq]| |] eqn:CS; cbn [obind] in S; try discriminate.
   inversion S; subst.
-  destruct (cache_stage_cases _ _ _ _ _ _ _ _ _ _ _ CO SO CS) as [(-> & _)|(qb & EQ & -> & _ & MISS)]; [contradiction|].
+  destruct (cache_stage_cases _ _ _ _ _ _ _ _ _ _ _ _ CO SO CS) as [(-> & _)|(qb & EQ & -> & _ & MISS)]; [contradiction|].
   exists srv, qb. repeat split; auto.
   - destruct (Proofs.DnsRoute.decide_actions (c_routes c) (qname q) (rd q)) as (_ & FW & _).
     destruct (FW srv DE) as [RD _]. exact RD.
@@ -666,9 +666,9 @@ Qed.
 (* a query that got past the ACL, the screens and the router: it is answered either from the cache
    (no upstream query, cache and store untouched, entry under the identical key and still within
    its lifetime) or from the upstream's answer to the query sent for it *)
-Lemma served_step mac c st t_ns t_s client port local tcp b u id eo st' out qs q srv :
+Lemma served_step mac c st t_ns t_ins t_s client port local tcp b u id eo st' out qs q srv :
   st_ok t_s st -> decode b = Ok q -> front c client port q = Ok (ToServer srv) ->
-  dns_step mac c st t_ns t_s client port local tcp b u id eo = Ok (st', out, qs) ->
+  dns_step mac c st t_ns t_ins t_s client port local tcp b u id eo = Ok (st', out, qs) ->
   exists r bytes,
     wire_bytes q tcp (reply_of q r eo) = Ok bytes /\ (out = None \/ out = Some bytes) /\
     ((qs = [] /\ s_cache st' = s_cache st /\ s_store st' = s_store st /\ is_hit st q t_ns r)
@@ -677,13 +677,13 @@ Lemma served_step mac c st t_ns t_s client port local tcp b u id eo st' out qs q
       (qclass q <> 1 \/ DnsCache.get_entry (s_cache st) (key_of q) t_ns = None))).
 Proof.
   intros (CO & SO & _) D F H.
-  destruct (dns_step_inv _ _ _ _ _ _ _ _ _ _ _ _ _ _ _ _ _ D H)
+  destruct (dns_step_inv _ _ _ _ _ _ _ _ _ _ _ _ _ _ _ _ _ _ D H)
     as (rt & reply & c' & store' & bytes & drop & bs & F' & S & W & L & -> & ->).
   rewrite F in F'. inversion F'; subst rt. cbn [staged_of] in S.
-  destruct (cache_stage st q tcp t_ns srv id u) as [[[[r cc] ss] qq]| |] eqn:CS; cbn [obind] in S; try discriminate.
+  destruct (cache_stage st q tcp t_ns t_ins srv id u) as [[[[r cc] ss] qq]| |] eqn:CS; cbn [obind] in S; try discriminate.
   inversion S; subst. exists r, bytes. split; [assumption|]. split; [destruct drop; auto|].
   cbn [s_cache s_store].
-  destruct (cache_stage_cases _ _ _ _ _ _ _ _ _ _ _ CO SO CS) as [(-> & -> & -> & HIT)|(qb & EQ & -> & -> & MISS)].
+  destruct (cache_stage_cases _ _ _ _ _ _ _ _ _ _ _ _ CO SO CS) as [(-> & -> & -> & HIT)|(qb & EQ & -> & -> & MISS)].
   - left. auto.
   - right. split; [|auto]. destruct (out_query_transports tcp id u) as [E|[E|E]]; rewrite E; discriminate.
 Qed.
@@ -704,10 +704,10 @@ Definition relayed_from (st : pstate) (q : pkt) (t_ns : N) (u : upstream) (qs : 
      t_ns <= DnsCache.e_birth e + DnsCache.NS * DnsCache.min_ttl (abs_reply m0) /\
      d <= DnsCache.min_ttl (abs_reply m0)).
 
-Lemma d04_faithful mac c st t_ns t_s client port local tcp b u id eo st' bytes qs q srv :
+Lemma d04_faithful mac c st t_ns t_ins t_s client port local tcp b u id eo st' bytes qs q srv :
   st_ok t_s st -> up_ok u -> bytes_ok b = true -> wf_opts eo = true ->
   decode b = Ok q -> front c client port q = Ok (ToServer srv) ->
-  dns_step mac c st t_ns t_s client port local tcp b u id eo = Ok (st', Some bytes, qs) ->
+  dns_step mac c st t_ns t_ins t_s client port local tcp b u id eo = Ok (st', Some bytes, qs) ->
   lenN bytes <= N.max (response_size_limit tcp (bufsize q)) 512 /\
   ((* a resolver error: SERVFAIL *)
    (exists r, strict_decode bytes = Some r /\ refused_reply_for q r 2)
@@ -727,7 +727,7 @@ Lemma d04_faithful mac c st t_ns t_s client port local tcp b u id eo st' bytes q
                    rcode r = rcode m0)).
 Proof.
   intros OK HU HB WE D F H. pose proof (decode_wf b q HB D) as WQ.
-  destruct (served_step _ _ _ _ _ _ _ _ _ _ _ _ _ _ _ _ _ _ OK D F H) as (r & bytes' & W & O & CASES).
+  destruct (served_step _ _ _ _ _ _ _ _ _ _ _ _ _ _ _ _ _ _ _ OK D F H) as (r & bytes' & W & O & CASES).
   destruct O as [O|O]; [discriminate|]. inversion O; subst bytes'. clear O.
   destruct r as [m'|er]; cbn [reply_of] in W.
   - assert (SRC : exists m0 d, relayed_from st q t_ns u qs m0 d /\ pkt_ok m' /\ rcode m' = rcode m0 /\
@@ -811,17 +811,17 @@ Lemma addr_eqb_eq a b : addr_eqb a b = true -> a = b.
 Proof. destruct a, b; simpl; try discriminate; try reflexivity; intro H; apply N.eqb_eq in H; congruence. Qed.
 
 (* the inputs of one step *)
-Record sin := { x_tns : N; x_ts : N; x_client : Acl.addr; x_port : N; x_local : Acl.addr; x_tcp : bool;
+Record sin := { x_tns : N; x_tins : N; x_ts : N; x_client : Acl.addr; x_port : N; x_local : Acl.addr; x_tcp : bool;
                 x_b : list N; x_u : upstream; x_id : N; x_eo : opts }.
 Definition step mac c st (x : sin) :=
-  dns_step mac c st (x_tns x) (x_ts x) (x_client x) (x_port x) (x_local x) (x_tcp x) (x_b x) (x_u x) (x_id x) (x_eo x).
+  dns_step mac c st (x_tns x) (x_tins x) (x_ts x) (x_client x) (x_port x) (x_local x) (x_tcp x) (x_b x) (x_u x) (x_id x) (x_eo x).
 
 (* the reply the step assembles (before the size limit and the limiter) *)
 Definition assembled c st (x : sin) : option pkt :=
   match decode (x_b x) with
   | Ok q =>
     match front c (x_client x) (x_port x) q with
-    | Ok rt => match staged_of st q (x_tcp x) (x_tns x) (x_id x) (x_u x) (x_eo x) rt with
+    | Ok rt => match staged_of st q (x_tcp x) (x_tns x) (x_tins x) (x_id x) (x_u x) (x_eo x) rt with
                | Ok (reply, _, _, _) => Some reply
                | _ => None
                end
@@ -898,7 +898,7 @@ Proof.
   destruct (decode (x_b x)) as [q|e|p] eqn:D.
   2: { unfold dns_step in H. rewrite D in H. inversion H; subst. split; [simpl; lia | split; assumption]. }
   2: { unfold dns_step in H. rewrite D in H. discriminate. }
-  destruct (dns_step_inv _ _ _ _ _ _ _ _ _ _ _ _ _ _ _ _ _ D H)
+  destruct (dns_step_inv _ _ _ _ _ _ _ _ _ _ _ _ _ _ _ _ _ _ D H)
     as (rt & reply & c' & store' & bytes & drop & bs & F & S & W & L & -> & ->).
   assert (AS : assembled c st x = Some reply) by (unfold assembled; rewrite D, F, S; reflexivity).
   unfold phi, buckets_ok. cbn [s_buckets].
@@ -1058,13 +1058,13 @@ Definition fetched_in (x : sin) (k : DnsCache.key) (m : pkt) : Prop :=
 Definition store_prov (pre : list sin) (st : pstate) : Prop :=
   forall k m, store_lookup k (s_store st) = Some m -> exists x, In x pre /\ fetched_in x k m.
 
-Lemma cache_stage_store st q tcp t_ns srv id u r c' store' qs :
-  cache_stage st q tcp t_ns srv id u = Ok (r, c', store', qs) ->
+Lemma cache_stage_store st q tcp t_ns t_ins srv id u r c' store' qs :
+  cache_stage st q tcp t_ns t_ins srv id u = Ok (r, c', store', qs) ->
   store' = s_store st \/
   exists m, fst (out_query tcp id u) = UOk m /\ qclass q = 1 /\ store' = store_insert (key_of q) m (s_store st).
 Proof.
   unfold cache_stage. set (o := out_query tcp id u).
-  destruct (DnsCache.handle (s_cache st) (key_of q) (qclass q) t_ns t_ns (abs_result (fst o))) as [[res cc] asked].
+  destruct (DnsCache.handle (s_cache st) (key_of q) (qclass q) t_ns t_ins (abs_result (fst o))) as [[res cc] asked].
   destruct asked.
   - destruct (encode (outquery id q)); cbn [obind]; try discriminate. intro H. inversion H; subst.
     destruct (fst o) as [m|e] eqn:FO; [|auto].
@@ -1083,12 +1083,12 @@ Proof.
   assert (MONO : store_prov (pre ++ [x]) st).
   { intros k m L. destruct (SP k m L) as (x0 & I0 & F0). exists x0. split; [apply in_or_app; auto | assumption]. }
   destruct (decode (x_b x)) as [q|e|p] eqn:D.
-  - destruct (dns_step_inv _ _ _ _ _ _ _ _ _ _ _ _ _ _ _ _ _ D H)
+  - destruct (dns_step_inv _ _ _ _ _ _ _ _ _ _ _ _ _ _ _ _ _ _ D H)
       as (rt & reply & c' & store' & bytes & drop & bs & F & S & W & L & -> & ->).
     destruct rt as [srv|kind]; cbn [staged_of] in S.
-    + destruct (cache_stage st q (x_tcp x) (x_tns x) srv (x_id x) (x_u x)) as [[[[r cc] ss] qq]| |] eqn:CS;
+    + destruct (cache_stage st q (x_tcp x) (x_tns x) (x_tins x) srv (x_id x) (x_u x)) as [[[[r cc] ss] qq]| |] eqn:CS;
         cbn [obind] in S; try discriminate. inversion S; subst.
-      destruct (cache_stage_store _ _ _ _ _ _ _ _ _ _ _ CS) as [->|(m & FO & QC & ->)].
+      destruct (cache_stage_store _ _ _ _ _ _ _ _ _ _ _ _ CS) as [->|(m & FO & QC & ->)].
       * exact MONO.
       * intros k m' L'. cbn [s_store] in L'. rewrite store_lookup_insert in L'.
         destruct (DnsCache.key_eqb k (key_of q)) eqn:KE.
